@@ -24,10 +24,31 @@ def _limits(mem_gb):
     return f
 
 
+LIVE = set()      # process-group ids of running children (each child is its own session), for kill_all() on SIGTERM
+
+
+STOP = False
+
+
+def kill_all():
+    global STOP
+    STOP = True       # no new children from the worker threads
+    for pid in list(LIVE):
+        try:
+            os.killpg(pid, 9)
+        except (ProcessLookupError, PermissionError):
+            pass
+
+
 def sh(cmd, timeout, mem_gb=DEFAULT_MEM_GB, cwd=None, env=None):
     t0 = time.time()
+    if STOP:
+        return -9, '', 0.0, True
     p = subprocess.Popen(cmd, stdout=subprocess.PIPE, stderr=subprocess.STDOUT, text=True, cwd=cwd, env=env,
                          preexec_fn=_limits(mem_gb))
+    LIVE.add(p.pid)
+    if STOP:
+        kill_all()
     try:
         out, _ = p.communicate(timeout=timeout)
         return p.returncode, out, time.time() - t0, False
@@ -38,6 +59,8 @@ def sh(cmd, timeout, mem_gb=DEFAULT_MEM_GB, cwd=None, env=None):
             pass
         out, _ = p.communicate()
         return -9, out, time.time() - t0, True
+    finally:
+        LIVE.discard(p.pid)
 
 
 RES_RX = re.compile(r'^\[(?P<name>[^\]]+)\]\s+(?:line (?P<line>\d+)\s+)?(?P<desc>.*): (?P<res>SUCCESS|FAILURE|UNKNOWN|ERROR)$')
